@@ -399,7 +399,7 @@ def check(run, replay=None):
         return
     # ---- 1. MC: I (append/unit/Apply as coded) against P (stack of open contexts, bracketed walk, cut at k)
     #         the skeleton configurations cover exactly the programs that GEN emits below
-    mcs = [full(steps=5, visit="TRUE"), full(steps=6, visit="FALSE"), skel(steps=9, visit="FALSE")]
+    mcs = [full(steps=4, visit="TRUE"), skel(steps=8, visit="TRUE"), full(steps=6, visit="FALSE"), skel(steps=9, visit="FALSE")]
     if thorough:
         mcs = [full(steps=6, visit="TRUE"), full(steps=7, visit="FALSE"), skel(steps=8, visit="TRUE"),
                skel(steps=10, mid=1, visit="FALSE")]
